@@ -6,6 +6,8 @@ import MoneroModel.Props.C16
 import MoneroModel.Props.C14
 import MoneroModel.Proofs.PanicsProofs
 import MoneroModel.Proofs.ExtraLen
+import MoneroModel.Proofs.PanicsTx
+import MoneroModel.Proofs.PanicsFmt
 open Monero Ledger
 /-! # C04 — no input can panic, hang or exhaust memory (PARTIAL: see below)
 
@@ -63,7 +65,8 @@ theorem C04_parsed_block_root_no_panic (H : Bytes → Bytes) (b : Bytes) (blk : 
     TreeHash.treeHash H minerHash blk.hashes = some (Spec.TreeHash.treeSpec H (minerHash :: blk.hashes)) :=
   C06.C06_tree_eq_spec H minerHash blk.hashes (C04_treehash_pre b blk r h)
 
-/-- the VarInt loop reads at most 10 bytes: no unbounded reading on any input -/
+/-- a VarInt that DECODES consumed between 1 and 10 bytes (on a failing input the group loop of the Rust reads on until a byte
+without continuation bit or the end of the input: bounded by the input, not by 10) -/
 theorem C04_varint_bounded (b : Bytes) (n : Nat) (r : Bytes) (h : varint b = some (n, r)) :
     1 ≤ b.length - r.length ∧ b.length - r.length ≤ 10 := by
   have hs := sound_varint b n r h
@@ -111,6 +114,15 @@ theorem C04_alloc_bound_tx (b : Bytes) :
 /-- … and for blocks (header, miner transaction, hash list) -/
 theorem C04_alloc_bound_block (b : Bytes) :
     (rblock b).val = block b ∧ (rblock b).peak ≤ 2 * CAP + Bblock * b.length := alloc_bound_block b
+/-- … and for the stand-alone transaction prefix (`deserialize::<TransactionPrefix>`): the instrumented decoder computes the
+model's result, stays within `2·CAP + 40·|b|`, and keeps nothing after a failure -/
+theorem C04_alloc_bound_prefix (b : Bytes) :
+    (rprefix b).val = prefix' b ∧ (rprefix b).peak ≤ 2 * CAP + 40 * b.length ∧ ((rprefix b).val = none → (rprefix b).live = 0) := by
+  refine ⟨rprefix_val b, ?_, bounded_rprefix.live_fail b⟩
+  have hp := bounded_rprefix.peak b
+  have hu : used b (rprefix b) ≤ b.length := by unfold used; split <;> omega
+  have := Nat.mul_le_mul_left 40 hu
+  omega
 /-- after a failed parse of a transaction or block nothing stays allocated -/
 theorem C04_alloc_released (b : Bytes) :
     ((rtx b).val = none → (rtx b).live = 0) ∧ ((rblock b).val = none → (rblock b).live = 0) :=
@@ -180,6 +192,113 @@ theorem C04_no_panic_ring_size (ins : List TxIn) :
     mixinP ins = (match ins.head? with
       | some (.toKey _ o _) => if o.length = 0 then .err else .ok (o.length - 1)
       | _ => .ok 0) := ⟨mixinP_no_panic ins, mixinP_eq ins⟩
+
+
+/-! ## `1 + inputs` and `&prefix.inputs[0]` inside the transaction decoder; the public decoders with `usize` parameters -/
+open Monero.Panics in
+/-- `Transaction::consensus_decode`, whole: the panic-explicit decoder `txP` — control flow of the Rust function written
+out (early return on `inputs == 0`, `if inputs > 0` around `&prefix.inputs[0]`, `checked_sub(1)`), calling the
+panic-explicit `RctSigPrunable` decoder in which `1 + inputs` is a checked `usize` addition — reaches no panic site on any
+byte string, and returns exactly what the model `tx` (the one the correspondence run ties to the code) returns. The
+overflow is excluded because `inputs` is the length of a vector that passed the allocation cap
+(`inputs · size_of::<TxIn>() ≤ CAP`, constants from the regenerated tables). -/
+theorem C04_no_panic_tx (b : Bytes) : (txP b).isPanic = false ∧ (txP b).toOption = tx b := by
+  rw [txP_eq]; exact ⟨ofOption_isPanic _, ofOption_toOption _⟩
+
+open Monero.Panics in
+/-- the PUBLIC function `RctSigPrunable::consensus_decode(r, rct_type, inputs, outputs, mixin)` called directly: for every
+reader content, type, output count and ring size, no panic site is reachable PROVIDED `1 + inputs` fits a `usize`; the
+precondition is needed (`C04_prunable_pre_needed`). -/
+theorem C04_no_panic_prunable (ty inputs outputs mixin : Nat) (b : Bytes) (h : 1 + inputs < 2 ^ 64) :
+    (prunableP ty inputs outputs mixin b).isPanic = false ∧
+    (prunableP ty inputs outputs mixin b).toOption = prunable ty inputs outputs mixin b := by
+  rw [prunableP_eq _ _ _ _ _ h]; exact ⟨ofOption_isPanic _, ofOption_toOption _⟩
+example : 1 + 16 < 2 ^ 64 := by decide
+
+open Monero.Panics in
+/-- … and without it the panic IS reachable through the public API: `rct_type = Full`, `inputs = usize::MAX`,
+`outputs = 0`, `mixin = 0`, empty reader evaluates `1 + inputs` before any byte is read (observed on the real library by
+the harness operation `c04_dec prunable 1 18446744073709551615 0 0 -`: "attempt to add with overflow", ringct.rs:774).
+`Transaction::consensus_decode` never passes such a value (`C04_no_panic_tx`). -/
+theorem C04_prunable_pre_needed : (prunableP 1 (2 ^ 64 - 1) 0 0 []).isPanic = true := prunableP_panics_at_max
+
+/-- the raw extra of every PARSED transaction respects the cap of the byte-vector decoder, so
+`RawExtraField::from(tx.prefix.extra.try_parse())` — `deserialize(&serialize(..)).unwrap()` — cannot panic, whatever
+the extra bytes are and whether or not parsing them reported an error (instance of
+`C04_raw_from_parsed_extra_no_panic` without a free hypothesis) -/
+theorem C04_raw_from_parsed_tx_extra_no_panic (vk : Bytes → Bool) (b : Bytes) (t : Tx) (r : Bytes) (h : tx b = some (t, r)) :
+    Extra.toRaw (Extra.tryParse vk t.pre.extra).fields = some (Extra.encFields (Extra.tryParse vk t.pre.extra).fields) := by
+  have hc : t.pre.extra.length ≤ CAP := by
+    unfold tx at h
+    obtain ⟨p, r0, hp, h⟩ := bind_some h
+    have hpe : t.pre = p := by
+      simp only [] at h
+      split at h
+      · obtain ⟨s, r1, _, h⟩ := bind_some h
+        obtain ⟨rfl, _⟩ := pure_some h; rfl
+      · split at h
+        · obtain ⟨rfl, _⟩ := pure_some h; rfl
+        · obtain ⟨bs, r1, _, h⟩ := bind_some h
+          split at h
+          · cases hh : p.ins.head? with
+            | none =>
+              rw [hh] at h
+              obtain ⟨pr, r2, _, h⟩ := bind_some h
+              obtain ⟨rfl, _⟩ := pure_some h; rfl
+            | some i0 =>
+              rw [hh] at h
+              cases i0 with
+              | gen g =>
+                obtain ⟨pr, r2, _, h⟩ := bind_some h
+                obtain ⟨rfl, _⟩ := pure_some h; rfl
+              | toKey a o k =>
+                simp only [] at h
+                split at h
+                · exact (fail_some h).elim
+                · obtain ⟨pr, r2, _, h⟩ := bind_some h
+                  obtain ⟨rfl, _⟩ := pure_some h; rfl
+          · obtain ⟨rfl, _⟩ := pure_some h; rfl
+    rw [hpe]
+    unfold prefix' at hp
+    obtain ⟨v, r1, _, hp⟩ := bind_some hp
+    obtain ⟨u, r2, _, hp⟩ := bind_some hp
+    obtain ⟨i, r3, _, hp⟩ := bind_some hp
+    obtain ⟨o, r4, _, hp⟩ := bind_some hp
+    obtain ⟨e, r5, he, hp⟩ := bind_some hp
+    obtain ⟨rfl, rfl⟩ := pure_some hp
+    have := vec_cap sizes.u8 u8 r4 e r5 he
+    have h1 : sizes.u8 = 1 := by decide
+    rw [h1] at this
+    show e.length ≤ CAP
+    omega
+  exact (C04_raw_from_parsed_extra_no_panic vk t.pre.extra hc).2
+
+
+/-! ## formatting and signed parsing of amounts -/
+open Monero.Panics in
+/-- `fmt_piconero_in` (behind `Amount::to_string_in`, `Display`, `to_string_with_denomination`, and the signed forms): for
+every value (every `u64` and beyond), sign and denomination of the REGENERATED precision table, `real.len() - nb_decimals`
+does not underflow and the three `str` slices of the zero-padded numeral are in range and on character boundaries (the
+numeral is ASCII); the text is the C15 model's -/
+theorem C04_no_panic_fmt_piconero (p : Nat) (neg : Bool) (d : Denom) :
+    (fmtPiconeroInP p neg d).isPanic = false ∧ (fmtPiconeroInP p neg d).toOption = some (AmtText.fmtPiconeroIn p neg d) := by
+  rw [fmtPiconeroInP_eq]; exact ⟨rfl, rfl⟩
+open Monero.Panics in
+/-- `SignedAmount::fmt_value_in`: for every integer — in particular `i64::MIN`, where `checked_abs` is `None` —
+`u64::MAX - (x as u64)` does not underflow and `… + 1` does not overflow a `u64` -/
+theorem C04_no_panic_signed_to_string (a : Int) (d : Denom) :
+    (signedToStringInP a d).isPanic = false ∧ (signedToStringInP a d).toOption = some (AmtText.signedToStringIn a d) := by
+  rw [signedToStringInP_eq]; exact ⟨rfl, rfl⟩
+open Monero.Panics in
+/-- `SignedAmount::from_str_in` on any `&str`: beyond the sites of the parser (`C04_no_panic_amount_parser`) the `i64` negation
+`-(piconero as i64)` cannot overflow (its operand is a non-negative value that passed the `> i64::MAX` test) -/
+theorem C04_no_panic_signed_from_str (s : Bytes) (d : Denom) (hu : Utf8 s) :
+    (signedFromStrInP s d).isPanic = false ∧
+    (signedFromStrInP s d).toOption = Out.ofExcept (AmtText.signedFromStrIn s d) := by
+  rw [signedFromStrInP_eq s d hu]; cases AmtText.signedFromStrIn s d <;> exact ⟨rfl, rfl⟩
+/- non-vacuity: the two new kinds of site can fire (negating `i64::MIN`; slicing a `str` inside a two-byte character) -/
+example : (Panics.negI64 "x" (-(2 : Int) ^ 63)).isPanic = true := by decide
+example : (Panics.strSlice "x" [0xc2, 0xb5] 0 1).isPanic = true := by decide
 
 /- non-vacuity: the panic-explicit vocabulary CAN panic (an unguarded slice does), the hash hypothesis is satisfiable,
 and "-1.5" is a `&str` in the sense of `Utf8` -/
